@@ -1860,7 +1860,10 @@ func (db *DatabaseCollectionWithUser) PutExistingRevWithBody(ctx context.Context
 		return nil, "", err
 	}
 
-	expiry, _ := body.ExtractExpiry()
+	expiry, err := body.ExtractExpiry()
+	if err != nil {
+		return nil, "", base.HTTPErrorf(http.StatusBadRequest, "Invalid expiry: %v", err)
+	}
 	deleted := body.ExtractDeleted()
 	revid := body.ExtractRev()
 
